@@ -25,6 +25,10 @@ CLAIMS.update({
    text="Partial (code-generator side, list indexing). The functions that emit the list index check (rvalue: VisitBinaryExpr/BIN_INDEX; assignment target, Referenz argument and nested indexing: evaluateAssignableOrReference) are executed symbolically as real code under trusted contracts on the llir builder API that give each emitted instruction its LLVM meaning (IR-denotation layer). Proved for all 2^64 index values and all lengths >= 0: ddp_runtime_error is reached exactly when !(1 <= i <= len) with len the list's length field, the element address is computed only under 0 <= i-1 < len, and code after the check runs only on the in-range path. Text indexing in the C runtime, slicing, Variable casts and '...' are not yet under contract.",
    note="Trusted: ~20 llir builder contracts (LLVM LangRef semantics), loadStructField/addTemporary frames, IR type descriptor accessors, 'den(zero)=0', immutability of the AST and of package-level IR handles during code generation.",
    ref="6/C06"),
+ "C07": dict(
+   text="Partial. Deductive proof of the local links of the failure-flag chain in the parser: the handler wrapper installed by newParser raises errored exactly for error-level diagnostics and forwards every diagnostic once; errored is written nowhere else in the package (syntactic frame obligation over the SSA); parse() ends with Ast.Faulty == errored (so nothing that can still report runs after the flag is copied); errVal delivers the first error and suppresses follow-ups in panic mode; warn never counts as failure. Range validity, the renderer and the CLI exit status are not yet under contract.",
+   note="Trusted: model of a diagnostic-handler call (counts as delivered; may raise only the errored flag of the parser whose wrapper it is); the handler given to newParser is not that parser's own wrapper; deferred panic wrappers are not executed (recover unmodelled).",
+   ref="6/C07"),
 })
 NA = {
  "C08": "relational whole-program property (no holder observes another holder's mutation); no function contract within reach states it; the local copy/claim mechanics are covered under C05/C18 where claimed",
